@@ -11,6 +11,7 @@ import RF.Driver.Newline
 import RF.Driver.Shape
 import RF.Driver.Session
 import RF.Driver.Imports
+import RF.Driver.Config
 /-!
 `rfmodel`: one request per line on stdin, one response per line on stdout.
 `?` is printed for a request no handler understands (the harness treats it as a protocol error,
@@ -30,7 +31,8 @@ def handlers : List (String → List String → Option String) :=
    RF.Driver.Newline.handle,
    RF.Driver.Shape.handle,
    RF.Driver.Session.handle,
-   RF.Driver.Imports.handle]
+   RF.Driver.Imports.handle,
+   RF.Driver.Config.handle]
 
 def dispatch (line : String) : String :=
   match (line.trimAscii.toString.splitOn " ").filter (· ≠ "") with
